@@ -28,6 +28,11 @@ SLOTS = {"elastic": ["info", "indexes"], "docker": ["ping_head", "ping_get", "in
 SLOT_CODE = {"info": 0, "indexes": 1, "ping_head": 2, "ping_get": 3, "version": 4}
 
 
+def slack_of(o):
+    # end-to-end runs include process start-up and the exit delay
+    return SLACK_MS + (600 if o.get("e2e") else 0)
+
+
 def mismatch(o):
     return (o["scheme"] == "https") != bool(o["server_tls"])
 
@@ -111,8 +116,9 @@ def spec_on_impl(o):
     elif comfortable(o):
         return "not reported (%s) although the info request was answered in time with a JSON object" % o["err"][:120]
     b = time_bound(o)
-    if o["dur_ms"] > b + SLACK_MS:
-        return "Scan took %.0f ms, more than the bound of %d ms (+%d ms slack)" % (o["dur_ms"], b, SLACK_MS)
+    if o["dur_ms"] > b + slack_of(o):
+        return "%s took %.0f ms, more than the bound of %d ms (+%d ms slack)" % (
+            "sx %s -t %dms" % (kind, o["timeout"]) if o.get("e2e") else "Scan", o["dur_ms"], b, slack_of(o))
     return None
 
 
@@ -181,7 +187,7 @@ def case_term(o):
     return ("{| c_timeout := %s; c_cancel := %s; c_target := %s; c_script := %s; c_obs := %s; c_dur := %s; "
             "c_slack := %d; c_reqs := %s; c_rec := %s |}") % (
         z(o["timeout"]), "None" if o["cancel"] < 0 else "Some %s" % z(o["cancel"]), target, script, z(o["obs"]),
-        z(int(o["dur_ms"])), SLACK_MS, reqs, rec)
+        z(int(o["dur_ms"])), slack_of(o), reqs, rec)
 
 
 def case_file(rows):
@@ -237,7 +243,8 @@ def report(ctx, o, why):
         return
     path = ctx.write_replay("case%d" % o["id"], {
         "property": "C10", "what": why, "key": key,
-        "input": {k: o[k] for k in ("id", "class", "kind", "scheme", "server_tls", "timeout", "cancel", "mode", "slots", "ip")},
+        "input": dict({k: o[k] for k in ("id", "class", "kind", "scheme", "server_tls", "timeout", "cancel", "mode", "slots",
+                                         "ip")}, e2e=bool(o.get("e2e"))),
         "observed": {"outcome": OBS.get(o["obs"], o["obs"]), "err": o["err"], "dur_ms": o["dur_ms"], "reqs": o["reqs"],
                      "rec": o["rec"], "port": o["port"]},
         "replay_cmd": "bin/check C10 --replay <this file>"})
@@ -248,7 +255,7 @@ def settle(ctx, rows, tag, have_model):
     bad = evaluate(ctx, rows, tag, 8 if len(rows) < 3000 else 48) if have_model else {}
     for attempt in range(2):
         idxs = sorted(set(bad) | {i for i, o in enumerate(rows) if spec_on_impl(o)})
-        if not idxs or len(idxs) > 300:
+        if not idxs or len(idxs) > 60:
             break
         again = rerun(ctx, [rows[i] for i in idxs], "%s_retry%d" % (tag, attempt))
         if again is None or len(again) != len(idxs):
@@ -283,6 +290,26 @@ def gen_and_build(ctx):
     return gen_ok, model_ok, proof_ok
 
 
+def build_sx(ctx):
+    """the real command-line binary, for the end-to-end cases (ties command/{elastic,docker}.go behaviourally)"""
+    exe = os.path.join(ctx.work, "sx")
+    rc, out = verif.sh(["go", "build", "-o", exe, "."], env=verif.GOENV, cwd=verif.REPO, timeout=900)
+    if rc != 0:
+        ctx.broken.append(("correspondence: the sx binary does not build", out[-1500:]))
+        return None
+    return exe
+
+
+def corpus_rows(ctx):
+    """regression inputs kept under corpus/: run first, judged like generated cases"""
+    d = os.path.join(verif.ROOT, "corpus", ctx.pid)
+    cases = []
+    for f in sorted(os.listdir(d)) if os.path.isdir(d) else []:
+        if f.endswith(".json"):
+            cases += json.load(open(os.path.join(d, f)))
+    return (rerun(ctx, cases, "corpus") or []) if cases else []
+
+
 def shape(o):
     return (o["class"], o["scheme"], o["server_tls"], o["mode"],
             tuple(sorted((k, v["kind"], v.get("status", 0), v.get("body", "")) for k, v in o["slots"].items())))
@@ -305,10 +332,13 @@ def run(ctx):
     gen_ok, model_ok, proof_ok = gen_and_build(ctx)
     rows, bad = [], {}
     if ctx.harness_build("c10"):
-        ok, _ = ctx.harness_run("c10", ["-out", "cases.jsonl", "-seed", ctx.seed, "-n", 60 if quick_tier else 1500],
-                                timeout=3000)
+        args = ["-out", "cases.jsonl", "-seed", ctx.seed, "-n", 60 if quick_tier else 1500]
+        sx = build_sx(ctx)
+        if sx:
+            args += ["-e2e", sx]
+        ok, _ = ctx.harness_run("c10", args, timeout=3000)
         if ok:
-            rows = ctx.read_jsonl(os.path.join(ctx.work, "cases.jsonl"))
+            rows = corpus_rows(ctx) + ctx.read_jsonl(os.path.join(ctx.work, "cases.jsonl"))
     if rows:
         rows, bad = settle(ctx, rows, "cases", bool(model_ok))
         if model_ok:
@@ -356,6 +386,7 @@ def replay(ctx, path):
         return 1
     c = dict(r["input"])
     c.update({"port": 0, "obs": 0, "err": "", "dur_ms": 0, "reqs": None, "rec": None, "tries": 0})
+    c["e2e"] = (build_sx(ctx) or "") if c.get("e2e") else ""
     for k in range(3):
         got = rerun(ctx, [c], "replay%d" % k)
         if not got:
